@@ -318,6 +318,34 @@ theorem text_hard_draw_rows (style : Nat) (maxW maxH : UInt16) (lines : List (Li
     cases lines[y]? <;> rfl
   rw [this]; rfl
 
+/-- `text.hardLines` — the lines of a `Text` with `Softwrap = false` (since /repo 3fa26b1, finding F616;
+before: `bufio.Scanner`, which stopped at a line longer than 64 KiB and did not break at a lone CR) —
+returns **exactly** the split of the text at the hard line breaks: the lines `HardwrapScanner` gives
+`RichText` (`hardwrap_is_split_at_newline`). -/
+theorem text_hard_lines_are_split (cells : List Cell) : Wrap.textHardLines cells = splitNl cells :=
+  textHardLines_eq_split cells
+
+/-- **`Text.Draw` with `Softwrap = false`, end to end** (no line scanner left as a parameter): for every
+text and every `Max`, no panic; `min (#lines) Max.Height` rows, the lines being the split of the text at
+the hard line breaks; row `y` shows `hardLine` of line `y` in the widget's style on a surface filled
+with that style — the line unaltered when it fits, else its longest prefix that leaves room for the
+ellipsis followed by the ellipsis. -/
+theorem text_hard_draw_exactly_the_lines (style : Nat) (maxW maxH : UInt16) (cells : List Cell)
+    (hw : ∀ l ∈ splitNl cells, sumW l < 65536) :
+    ∃ s, textHardDraw (fun c => [c]) style maxW maxH cells = .ok s ∧
+      s.h.toNat = min (splitNl cells).length maxH.toNat ∧
+      s.buf.length = s.h.toNat * s.w.toNat ∧
+      ∀ x y, x < s.w.toNat → y < s.h.toNat →
+        cellAt s x y = over (hardLine maxW.toNat (some style) (((splitNl cells).getD y []).map (toWinSt style))) 0
+          (fun _ => some { (default : Window.Cell) with st := style }) x := by
+  obtain ⟨s, h1, h2, h3, h4⟩ := text_hard_draw_rows style maxW maxH (splitNl cells) hw
+  refine ⟨s, ?_, h2, h3, h4⟩
+  simp only [textHardDraw, text_hard_lines_are_split, WrapDraw.ofExcept]
+  have : (List.map (fun l => List.map (toWinSt style) (List.flatMap (fun c => [c]) l)) (splitNl cells)) =
+      (splitNl cells).map (·.map (toWinSt style)) := by
+    congr 1; funext l; simp
+  rw [this, h1]
+
 /-- **A line that fits is drawn unaltered** (`width ≤ Max.Width`, equality included — false before
 /repo 65842f0, finding F316, `Witness.F316`): the row of `hard_draw_rows` / `text_hard_draw_rows` is
 the row the soft-wrap mode shows for the same line. -/
